@@ -8,7 +8,8 @@ A history (item) is a dict:
   cfg  : limit (bytes, 0 off), maxb (-1 unlimited), over 0/1, scheme 'I'|'D'|'T', freq 'N'|'D'|'H'|'M', interval,
          daily 'HH:MM', zone 'G'|'L', tz (zone name used when zone == 'L'), clean 0/1
   pre  : [unrelated file names]
-  ops  : [('C', mode, t) | ('R', mode, t) | ('W', id, size, t)]      t = epoch seconds, mode 'a'|'w'
+  ops  : [('C', mode, t) | ('R', mode, t[, rm]) | ('W', id, size, t)]      t = epoch seconds, mode 'a'|'w',
+         rm = 1: the active file (logfile.log) disappears while no sink is open (between destroy and construct)
   pred : optional, per op the model-predicted {filename: [ids]}       (TLC-exported behaviours only)
 """
 import json, re
@@ -93,6 +94,10 @@ def cands(t, cfg):
 
 
 # --------------------------------------------------------------------------- scripts / running the real sink
+def rm_of(op):
+    return 1 if (op[0] == "R" and len(op) > 3 and op[3]) else 0
+
+
 def script(items):
     L = []
     for it in items:
@@ -109,7 +114,7 @@ def script(items):
             L.append(f"pre {n}")
         for op in it["ops"]:
             if op[0] in ("C", "R"):
-                L.append(f"{op[0]} {op[1]} {op[2]}")
+                L.append(f"{op[0]} {op[1]} {op[2]} {1 if rm_of(op) else 0}")
             else:
                 L.append(f"W {op[1]} {op[2]} {op[3]}")
         L.append("endbeh")
@@ -204,7 +209,7 @@ def trace_lines(it, obs):
                     continue
                 files.append({"k": k, "d": rank[ds], "x": x, "ids": f["ids"], "sz": f["sz"], "bad": f["bad"]})
             ubad += len(set(it.get("pre", [])) - seen)
-        ln = {"op": op[0], "mode": 0, "t": t - base, "dk": rank[suffix(t, cfg)], "p1": 0, "cand": [], "id": 0, "sz": 0,
+        ln = {"op": op[0], "mode": 0, "rm": rm_of(op), "t": t - base, "dk": rank[suffix(t, cfg)], "p1": 0, "cand": [], "id": 0, "sz": 0,
               "files": files, "ubad": ubad, "err": 1 if (o is None or o["err"]) else 0}
         if op[0] in ("C", "R"):
             ln["mode"] = 1 if op[1] == "w" else 0
@@ -301,6 +306,8 @@ def signature(it, obs, j, clauses):
     feat = f"scheme={cfg['scheme']}:freq={cfg['freq']}"
     if any(op[0] == "R" for op in ops[:j + 1]):
         feat += ":restart=" + "".join(sorted({op[1] for op in ops[:j + 1] if op[0] == "R"}))
+        if any(rm_of(op) for op in ops[:j + 1]):
+            feat += ":active-file-removed"
     return f"{p}:{feat}"
 
 
@@ -312,7 +319,7 @@ def describe(it, j):
         return datetime.fromtimestamp(t, tz).strftime("%Y-%m-%d %H:%M:%S")
     ops = []
     for op in it["ops"][:j + 1]:
-        ops.append(f"{op[0]}({op[1]},{ft(op[2])})" if op[0] in ("C", "R") else f"W(id={op[1]},size={op[2]},{ft(op[3])})")
+        ops.append(f"{op[0]}({op[1]},{ft(op[2])}{',active-file-removed' if rm_of(op) else ''})" if op[0] in ("C", "R") else f"W(id={op[1]},size={op[2]},{ft(op[3])})")
     cs = (f"limit={c['limit']} max_backup={c['maxb']} overwrite={c['over']} scheme={c['scheme']} freq={c['freq']}"
           f"{'/' + str(c['interval']) if c['freq'] in UNIT else ''}{' daily=' + c['daily'] if c['freq'] == 'D' else ''} "
           f"zone={'GMT' if c['zone'] == 'G' else c['tz']} clean={c['clean']}")
@@ -435,8 +442,10 @@ def from_behaviour(k, b, mp, limit_bytes=512, interval_unit=None, pre=()):
     ops, pred = [], []
     for o in b["ops"]:
         t = mp.real(o["t"])
-        if o["op"] in ("C", "R"):
-            ops.append((o["op"], "w" if o["mode"] == 1 else "a", t))
+        if o["op"] == "R":
+            ops.append(("R", "w" if o["mode"] == 1 else "a", t, o.get("rm", 0)))
+        elif o["op"] == "C":
+            ops.append(("C", "w" if o["mode"] == 1 else "a", t))
         else:
             ops.append(("W", o["id"], o["sz"] * unit_b, t))
         pred.append({mp.name(p["d"], p["x"], scheme, cfg): list(p["ids"]) for p in o["pred"]})
@@ -448,7 +457,7 @@ def from_behaviour(k, b, mp, limit_bytes=512, interval_unit=None, pre=()):
 
 # --------------------------------------------------------------------------- TLC configurations of Rotate.tla
 DEFAULTS = dict(Limits="{4}", Sizes="{1, 3, 5}", MaxBs="{0, 1, 2, 99}", Overs="{0, 1}", Schemes="{0}", Cleans="{0, 1}",
-                Modes="{0, 1}", Freqs="{0}", Intervals="{1}", DTs="{0, 1}", DayLen=2, DayOff=0, DailyOff=1, U=1, UOff=0,
+                Modes="{0, 1}", Freqs="{0}", Intervals="{1}", DTs="{0, 1}", RMs="{0}", DayLen=2, DayOff=0, DailyOff=1, U=1, UOff=0,
                 MaxOps=5, MaxRestarts=2, FixDaily="FALSE", Tolerated="{}", Export="FALSE", ExportDepth=5)
 
 
